@@ -3,7 +3,8 @@
 Stage A: TLC model-checks SecurityApi (payload cells, Encrypt / Mac actions over an UNINTERPRETED keystream function chosen
          nondeterministically per parameter point) exhaustively on small payloads: Accounting, LengthPreserved, Involution,
          PrefixStable, KsIndependent (invariants), ErrUntouched, GuardExact, NullIdentity, MacShape, MacPure (action
-         properties); a second configuration sweeps the guard boundaries.
+         properties); a second configuration sweeps the guard boundaries, a third the result cells (MacFresh, ResultOwned:
+         a returned MAC is a fresh cell the caller may write into).
 Stage B: TLC enumerates law-directed histories for every payload length 0..67 and every algorithm (MC_C08_gen), TLC
          -simulate walks the state machine itself; the driver executes them on real buffers, and records the full
          guard cube alg 0..255 x bearer 0..255 x direction 0..255 for both calls plus seeded histories.
@@ -84,6 +85,7 @@ def run(c):
         futs = [ex.submit(c.stage_a, sd, "MC_C08", cfg, workers=max(2, NCPU // 2), timeout=3000) for cfg in ("MC_C08", "MC_C08_guard")]
         for f in futs:
             f.result()
+    c.stage_a(sd, "MC_C08", "MC_C08_fresh", workers=4, timeout=600)
     # ---- stage B
     if thorough:
         set_constants(sd, "MC_C08_gen", dict(BigOctets="{100, 127, 128, 129, 255, 256, 257, 1000, 4096}"))
@@ -138,7 +140,7 @@ def run(c):
             return (op, kind, what, dict(cube=dict(call=e["call"], alg=e["alg"]), observed=dict(acc=e["acc"][:80], chg=e["chg"][:80], pan=e["pan"][:80]),
                                          how="harness/cmd/sec: sec cube %s %d out.ndjson ; validate with spec/trace/Trace_C08" % (e["call"], e["alg"])))
         op = CALL[e["op"]]
-        cls = kind
+        cls = "result-changed-by-later-call" if kind == "result-changed" else kind
         if kind == "panic" and not e["nil"] and len(e["before"]) == 0:
             cls = "panic-empty-payload"
             if e["op"] == "Mac":
